@@ -104,3 +104,35 @@ def run(chk):
         "davidson/decoupled-block-lowest-root-missed, davidson/search-space-"
         "exceeds-dimension, davidson/olsen-ritz-value-equals-diagonal-element",
     ]
+
+
+def replay(path):
+    """re-run the solves of one witness: the matrix is a pure function of
+    (seed, shard, matrix index), recorded in the witness' replay line"""
+    import json
+    import re
+    w = json.load(open(path))
+    line = w.get("witness", {}).get("replay", "")
+    m = re.search(r"--mode random --sizes (\w+) --seed (\d+) --shard (\d+) "
+                  r"--only (\d+)", line)
+    if m:
+        fl = "fast" if m.group(1) == "large" else "asan"
+        cmd = [_h(fl), "--mode", "random", "--sizes", m.group(1), "--seed",
+               m.group(2), "--shard", m.group(3), "--only", m.group(4),
+               "--n", "1000000"]
+    elif "--mode adversarial" in line:
+        fl = "asan"
+        cmd = [_h(fl), "--mode", "adversarial"]
+    else:
+        print("no replay line in", path)
+        return 2
+    res = vf.run_proc(cmd, env=vf.lib_env(fl, {"OMP_NUM_THREADS": "1"}),
+                      timeout=1200)
+    hit = [r for r in res.records() if r.get("t") == "violation"
+           and r.get("key") == w.get("key")]
+    for r in hit[:3]:
+        print(json.dumps(r)[:2000])
+    if res.rc != 0:
+        print(res.err[-3000:])
+        return 1
+    return 1 if hit else 0
